@@ -4,6 +4,26 @@ HERE = os.path.dirname(os.path.dirname(os.path.abspath(__file__)))
 props = [json.loads(l) for l in open(os.path.join(HERE, "properties.jsonl"))]
 
 CHECKS = {
+    "C01": dict(
+        text="Coq model of cli.test/_is_valid_version over the v2 engine and the PEP 440 order (Model/Cli.v, V2.v, Pep440.v), with theorems on the gate, "
+             "tied to the code by in-Coq correspondence of `bumpver test` (increment and every kind of --set-version target) via CliRunner; "
+             "`update [--dry]` runs in temporary projects checked directly.",
+        note="Trusted: Coq kernel+vm_compute, T1, hand models (Cli/V2/Pep440/Regex), harness. Uniqueness against tags is covered by C09.",
+        technique="Coq proof over the CLI gate model + model/implementation correspondence evaluated inside Coq",
+        ref="6/C01"),
+    "C05": dict(
+        text="Coq model of v2version.incr (_incr_numeric, rollover reset, calendar guard) with theorems, tied to the code by in-Coq correspondence of "
+             "`bumpver test OLD PATTERN <flags> --date D`; an independent part-level re-implementation of the README rules is compared with the CLI output.",
+        note="Trusted: Coq kernel+vm_compute, T1, hand models, harness (incl. its README-rule oracle).",
+        technique="Coq proof over the incr model + model/implementation correspondence evaluated inside Coq",
+        ref="6/C05"),
+    "C16": dict(
+        text="Coq theorems: the key comparison is a total order on all keys, lifted to all strings through version_key; legacy keys sort below PEP 440 keys; "
+             "the PEP 440 suffix/epoch/local/trailing-zero rules hold for all numbers. The model runs the VERSION_PATTERN extracted from the source (T1) "
+             "and is tied to the code by in-Coq correspondence of keys, str() and pairwise comparisons; packaging.version is a secondary oracle.",
+        note="Trusted: Coq kernel+vm_compute, T1, hand model Pep440.v + regex engine, harness. Known finding: non-ASCII case folding (IGNORECASE without ASCII).",
+        technique="Coq proof (total order by induction on keys) + model/implementation correspondence evaluated inside Coq",
+        ref="6/C16"),
     "C02": dict(
         text="Coq theorems over the v2 model (Model/V2.v: compile_pattern, format_version, parse_version_info, with part tables regenerated "
              "from /repo by T1) tied to the code by in-Coq differential correspondence on grammar patterns x version states; round trip "
